@@ -60,6 +60,9 @@ type Env struct {
 	cur    *RecBlock
 
 	nImports int
+	// ExtraAddrs: addresses beyond the lab accounts that hold custom-module state (receivers of
+	// streams, whitelist entries) - the list checks enumerate them as well
+	ExtraAddrs []sdk.AccAddress
 }
 
 type RecBlock struct {
